@@ -1,1 +1,1842 @@
-//! (stub)
+//! G-ref + G-cram: reference sequences and alignment records *derived from the reference* by a
+//! generated edit script, plus CRAM writer options. Shared by C07, C19 and the CRAM format driver
+//! (chunking / truncation / sink faults / hostile input / async / autodetection).
+//!
+//! The model is plain serialisable data (`CramDoc`). Everything that must be mutually consistent
+//! (CIGAR vs bases, read inside the reference, mate fields, TLEN, flags) is *computed* when the
+//! document is flattened (`CramDoc::flatten`), never stored, so that every shrunk or hand-edited
+//! document is still a valid SAM record stream over the supplied reference.
+//!
+//! No property-specific logic lives here. Known-hazard classes of the pinned noodles tree (missing
+//! names / qualities / bases, in-slice supplementary reads, …) are *switchable* in `Params`, so that
+//! drivers that only need valid round-tripping documents use `Params::safe()`.
+
+use crate::engine::fnv;
+use crate::r#gen::payload::XorShift;
+use noodles_core::Position;
+use noodles_cram as cram;
+use noodles_fasta as fasta;
+use noodles_sam as sam;
+use proptest::prelude::*;
+use sam::alignment::RecordBuf;
+use sam::alignment::io::Write as _;
+use sam::alignment::record::cigar::{Op, op::Kind};
+use sam::alignment::record::data::field::Tag;
+use sam::alignment::record_buf::data::field::{Value, value::Array};
+use serde::{Deserialize, Serialize};
+use std::io;
+use std::num::NonZeroUsize;
+
+// ---------------------------------------------------------------------------------------------
+// model
+// ---------------------------------------------------------------------------------------------
+
+#[derive(Clone, Debug, Serialize, Deserialize, PartialEq)]
+pub struct RefSeq {
+    pub name: String,
+    /// ASCII bases (ACGT, N runs, lower case, occasional IUPAC codes); never empty
+    pub seq: String,
+}
+
+/// One element of the aligned core of a read (between the clips).
+#[derive(Clone, Debug, Serialize, Deserialize, PartialEq)]
+pub enum Edit {
+    /// `n` bases copied from the reference (CIGAR M, or `=`)
+    Eq(u16),
+    /// one aligned base that differs from the reference base (CIGAR M, or `X`); the base is
+    /// chosen by the selector from `SUB_ALPHABET` minus the letters equal (ignoring case) to
+    /// the reference base
+    Sub(u8),
+    Ins(String),
+    Del(u16),
+    Skip(u16),
+    Pad(u16),
+}
+
+#[derive(Clone, Debug, Serialize, Deserialize, PartialEq)]
+pub struct Aligned {
+    pub ref_idx: u8,
+    /// 1-based; clamped into the reference when flattened
+    pub start: u32,
+    pub lead_hard: u16,
+    pub lead_soft: String,
+    pub edits: Vec<Edit>,
+    pub trail_soft: String,
+    pub trail_hard: u16,
+    /// write `=`/`X` instead of `M`
+    pub eqx: bool,
+    /// read bases are stored in the opposite letter case of what the edit script produced
+    pub flip_case: bool,
+    /// HAZARD: the record carries its CIGAR but no bases (`SEQ = *`)
+    pub bases_missing: bool,
+}
+
+#[derive(Clone, Debug, Serialize, Deserialize, PartialEq)]
+pub enum Body {
+    Mapped(Aligned),
+    /// flag 0x4; `placed` = (reference index, 1-based position, overhang allowed) for a placed
+    /// unmapped read. The position wraps into the reference and, unless overhang is allowed
+    /// (HAZARD), is moved left so that `pos + len - 1` stays inside the reference.
+    Unmapped { placed: Option<(u8, u32, bool)>, bases: String },
+}
+
+#[derive(Clone, Debug, Serialize, Deserialize, PartialEq)]
+pub enum Qual {
+    Missing,
+    Const(u8),
+    /// pseudo-random scores 0..=93 with runs, expanded from the seed
+    Seeded(u32),
+}
+
+#[derive(Clone, Debug, Serialize, Deserialize, PartialEq)]
+pub enum AuxVal {
+    A(u8),
+    I8(i8),
+    U8(u8),
+    I16(i16),
+    U16(u16),
+    I32(i32),
+    U32(u32),
+    /// f32 bit pattern
+    F(u32),
+    Z(String),
+    H(String),
+    BI8(Vec<i8>),
+    BU8(Vec<u8>),
+    BI16(Vec<i16>),
+    BU16(Vec<u16>),
+    BI32(Vec<i32>),
+    BU32(Vec<u32>),
+    BF(Vec<u32>),
+}
+
+#[derive(Clone, Debug, Serialize, Deserialize, PartialEq)]
+pub struct Aux {
+    /// two characters `[A-Za-z][A-Za-z0-9]`, never `RG`
+    pub tag: String,
+    pub val: AuxVal,
+}
+
+#[derive(Clone, Debug, Serialize, Deserialize, PartialEq)]
+pub struct Read {
+    pub body: Body,
+    pub reverse: bool,
+    /// `None` = 255 (missing); ignored for unmapped reads (CRAM has no MAPQ for them)
+    pub mapq: Option<u8>,
+    pub qual: Qual,
+    pub tags: Vec<Aux>,
+    /// index into the header's read groups (clamped); `None` = no RG tag
+    pub rg: Option<u8>,
+    /// where in the aux list the RG field goes (clamped)
+    pub rg_at: u8,
+    /// extra flag bits out of {0x2 proper pair (paired only), 0x200, 0x400}
+    pub extra_flags: u16,
+}
+
+#[derive(Clone, Debug, Serialize, Deserialize, PartialEq)]
+pub enum ExtraKind {
+    /// flag 0x100, same name, excluded from mate chains by the CRAM writer
+    Secondary,
+    /// flag 0x800, same name — HAZARD when it shares a slice with the template
+    Supplementary,
+}
+
+#[derive(Clone, Debug, Serialize, Deserialize, PartialEq)]
+pub enum Template {
+    Single {
+        /// `None` = missing name (`*`) — HAZARD
+        name: Option<String>,
+        read: Read,
+        secondary: bool,
+    },
+    Pair {
+        name: Option<String>,
+        r1: Read,
+        r2: Read,
+        /// the second segment is not part of the file (orphan first segment)
+        drop_r2: bool,
+        /// an extra line of segment 1
+        extra: Option<(ExtraKind, Read)>,
+    },
+}
+
+#[derive(Clone, Debug, Serialize, Deserialize, PartialEq)]
+pub enum Order {
+    /// coordinate order: (reference, start), unplaced reads last; ties keep generation order
+    Sorted,
+    /// generation order (templates as listed; segment 1, extra, segment 2); with `left_first`
+    /// the lines of one template are put in coordinate order
+    Listed { left_first: bool },
+    /// deterministic shuffle from the seed; with `left_first` the leftmost segment of a pair is
+    /// kept before the rightmost one
+    Shuffled { seed: u32, left_first: bool },
+}
+
+#[derive(Clone, Debug, Serialize, Deserialize, PartialEq)]
+pub enum Enc {
+    None,
+    Gzip(u8),
+    Bzip2(u8),
+    Lzma(u8),
+    Rans4x8(u8),
+    RansNx16(u8),
+    Aac(u8),
+    NameTok,
+    Fqz,
+}
+
+pub const N_SERIES: usize = 28;
+
+/// Series order = CRAM content ids 1..=28 as noodles assigns them.
+pub const SERIES_NAMES: [&str; N_SERIES] =
+    ["BF", "CF", "RI", "RL", "AP", "RG", "RN", "MF", "NS", "NP", "TS", "NF", "TL", "FN", "FC", "FP", "DL", "BB", "QQ", "BS", "IN", "RS", "PD", "HC", "SC", "MQ", "BA", "QS"];
+pub const SERIES_RN: usize = 6;
+pub const SERIES_QS: usize = 27;
+
+#[derive(Clone, Debug, Serialize, Deserialize, PartialEq)]
+pub struct EncMap {
+    pub core: Enc,
+    pub default: Enc,
+    /// exactly `N_SERIES` entries (missing entries = `None` encoder)
+    pub series: Vec<Enc>,
+    /// explicit tag-value encoders: the (tag, type) key picks `tag_rule[hash % len]`; empty = no
+    /// explicit tag encoders (the default encoder applies)
+    pub tag_rule: Vec<Enc>,
+}
+
+#[derive(Clone, Debug, Serialize, Deserialize, PartialEq)]
+pub struct WriterOpts {
+    pub preserve_read_names: bool,
+    pub ap_delta: bool,
+    /// 0 = do not call the records-per-slice hook (writer default 10 240)
+    pub records_per_slice: u16,
+    /// `None` = the writer's own default map
+    pub enc: Option<EncMap>,
+}
+
+impl Default for WriterOpts {
+    fn default() -> Self {
+        WriterOpts { preserve_read_names: true, ap_delta: true, records_per_slice: 0, enc: None }
+    }
+}
+
+#[derive(Clone, Debug, Serialize, Deserialize, PartialEq)]
+pub struct CramDoc {
+    pub refs: Vec<RefSeq>,
+    /// `@HD SO:` value; `None` = no @HD line
+    pub sort_order_tag: Option<String>,
+    /// `@SQ` lines carry `M5` (the correct digest); otherwise the writer fills it in
+    pub m5_in_header: bool,
+    pub read_groups: Vec<String>,
+    pub comments: Vec<String>,
+    pub templates: Vec<Template>,
+    pub order: Order,
+    pub opts: WriterOpts,
+}
+
+// ---------------------------------------------------------------------------------------------
+// flattening: the SAM-level ground truth
+// ---------------------------------------------------------------------------------------------
+
+pub const SUB_ALPHABET: &[u8] = b"ACGTNACGTNACGTNACGTNACGTNACGTNACGTacgtnACGTacgtnACGTNRYSWKMBDHVrk";
+
+/// A fully computed SAM record (the ground truth the oracles compare with).
+#[derive(Clone, Debug, PartialEq)]
+pub struct FlatRec {
+    pub name: Option<Vec<u8>>,
+    pub flags: u16,
+    pub ref_id: Option<usize>,
+    /// 1-based
+    pub start: Option<usize>,
+    /// reference bases covered by the CIGAR (0 for unmapped reads)
+    pub ref_span: usize,
+    pub mapq: Option<u8>,
+    /// (SAM op character, length); adjacent equal kinds are merged; empty for unmapped reads
+    pub cigar: Vec<(u8, usize)>,
+    pub mate_ref_id: Option<usize>,
+    pub mate_start: Option<usize>,
+    pub tlen: i32,
+    pub bases: Vec<u8>,
+    pub quals: Vec<u8>,
+    pub aux: Vec<(String, AuxVal)>,
+    /// index of the template in `CramDoc::templates`
+    pub template: usize,
+    /// 0 = segment 1 / single, 1 = extra line, 2 = segment 2
+    pub role: u8,
+    /// number of non-match features the edit script produced (mismatch, indel, clip, skip, pad)
+    pub edit_features: usize,
+}
+
+impl FlatRec {
+    pub fn is_unmapped(&self) -> bool {
+        self.flags & 0x4 != 0
+    }
+    pub fn is_paired(&self) -> bool {
+        self.flags & 0x1 != 0
+    }
+    /// inclusive alignment end the way SAM defines it (`start + max(span,1) - 1`)
+    pub fn end(&self) -> Option<usize> {
+        self.start.map(|s| s + self.ref_span.max(1) - 1)
+    }
+}
+
+struct Placed {
+    cigar: Vec<(u8, usize)>,
+    bases: Vec<u8>,
+    start: usize,
+    ref_span: usize,
+    edit_features: usize,
+}
+
+fn push_op(cigar: &mut Vec<(u8, usize)>, k: u8, n: usize) {
+    if n == 0 {
+        return;
+    }
+    if let Some(last) = cigar.last_mut() {
+        if last.0 == k {
+            last.1 += n;
+            return;
+        }
+    }
+    cigar.push((k, n));
+}
+
+fn flip(b: u8) -> u8 {
+    if b.is_ascii_lowercase() { b.to_ascii_uppercase() } else { b.to_ascii_lowercase() }
+}
+
+fn sanitize_bases(s: &str) -> Vec<u8> {
+    s.bytes().filter(|b| b.is_ascii_alphabetic()).collect()
+}
+
+/// Interpret the edit script against the reference; clamp everything into the reference.
+fn place(a: &Aligned, reference: &[u8]) -> Placed {
+    let rlen = reference.len();
+    let start = wrap_pos(a.start, rlen);
+    let mut rpos = start - 1; // 0-based index of the next reference base
+    let mut core: Vec<(u8, usize)> = Vec::new();
+    let mut bases: Vec<u8> = Vec::new();
+    let mut feats = 0usize;
+    let (m_eq, m_sub) = if a.eqx { (b'=', b'X') } else { (b'M', b'M') };
+
+    // pending non-aligned edits are only committed when an aligned base follows, so the core
+    // starts and ends with an aligned base
+    let mut pending: Vec<(u8, usize, Vec<u8>)> = Vec::new();
+    let mut have_aligned = false;
+    let mut pending_ref = 0usize;
+    for e in &a.edits {
+        match e {
+            Edit::Eq(n) => {
+                let avail = rlen.saturating_sub(rpos + pending_ref);
+                let n = (*n as usize).min(avail);
+                if n == 0 {
+                    continue;
+                }
+                commit(&mut pending, &mut core, &mut bases, &mut rpos, &mut pending_ref, &mut feats);
+                push_op(&mut core, m_eq, n);
+                bases.extend_from_slice(&reference[rpos..rpos + n]);
+                rpos += n;
+                have_aligned = true;
+            }
+            Edit::Sub(sel) => {
+                if rpos + pending_ref >= rlen {
+                    continue;
+                }
+                commit(&mut pending, &mut core, &mut bases, &mut rpos, &mut pending_ref, &mut feats);
+                let rb = reference[rpos];
+                let cands: Vec<u8> = SUB_ALPHABET.iter().copied().filter(|c| !c.eq_ignore_ascii_case(&rb)).collect();
+                let b = cands[(*sel as usize * cands.len()) >> 8];
+                push_op(&mut core, m_sub, 1);
+                bases.push(b);
+                rpos += 1;
+                feats += 1;
+                have_aligned = true;
+            }
+            Edit::Ins(s) => {
+                let b = sanitize_bases(s);
+                if have_aligned && !b.is_empty() {
+                    pending.push((b'I', b.len(), b));
+                }
+            }
+            Edit::Del(n) | Edit::Skip(n) => {
+                let k = if matches!(e, Edit::Del(_)) { b'D' } else { b'N' };
+                let n = *n as usize;
+                // keep at least one reference base for the aligned base that must follow
+                if have_aligned && n > 0 && rpos + pending_ref + n < rlen {
+                    pending.push((k, n, Vec::new()));
+                    pending_ref += n;
+                }
+            }
+            Edit::Pad(n) => {
+                if have_aligned && *n > 0 {
+                    pending.push((b'P', *n as usize, Vec::new()));
+                }
+            }
+        }
+    }
+    if !have_aligned {
+        // a read must align at least one base
+        push_op(&mut core, m_eq, 1);
+        bases.push(reference[rpos]);
+        rpos += 1;
+    }
+    let ref_span = rpos - (start - 1);
+
+    let lead_soft = sanitize_bases(&a.lead_soft);
+    let trail_soft = sanitize_bases(&a.trail_soft);
+    let mut cigar = Vec::new();
+    push_op(&mut cigar, b'H', a.lead_hard as usize);
+    push_op(&mut cigar, b'S', lead_soft.len());
+    for (k, n) in core {
+        push_op(&mut cigar, k, n);
+    }
+    push_op(&mut cigar, b'S', trail_soft.len());
+    push_op(&mut cigar, b'H', a.trail_hard as usize);
+    feats += [a.lead_hard as usize, lead_soft.len(), trail_soft.len(), a.trail_hard as usize].iter().filter(|n| **n > 0).count();
+
+    let mut all = lead_soft;
+    all.extend_from_slice(&bases);
+    all.extend_from_slice(&trail_soft);
+    if a.flip_case {
+        for b in all.iter_mut() {
+            *b = flip(*b);
+        }
+    }
+    Placed { cigar, bases: all, start, ref_span, edit_features: feats }
+}
+
+/// Positions inside the reference are literal; larger ones wrap around (so that generated starts
+/// spread over the reference whatever its length, and shrinking towards 1 stays literal).
+pub fn wrap_pos(pos: u32, rlen: usize) -> usize {
+    let p = (pos as usize).max(1);
+    if p <= rlen { p } else { (p - 1) % rlen.max(1) + 1 }
+}
+
+fn commit(pending: &mut Vec<(u8, usize, Vec<u8>)>, core: &mut Vec<(u8, usize)>, bases: &mut Vec<u8>, rpos: &mut usize, pending_ref: &mut usize, feats: &mut usize) {
+    for (k, n, b) in pending.drain(..) {
+        push_op(core, k, n);
+        bases.extend_from_slice(&b);
+        if k == b'D' || k == b'N' {
+            *rpos += n;
+        }
+        *feats += 1;
+    }
+    *pending_ref = 0;
+}
+
+pub fn expand_qual(q: &Qual, len: usize) -> Vec<u8> {
+    match q {
+        Qual::Missing => Vec::new(),
+        Qual::Const(v) => vec![(*v).min(93); len],
+        Qual::Seeded(seed) => {
+            let mut r = XorShift::new(*seed as u64 + 7);
+            let mut out = Vec::with_capacity(len);
+            let mut cur = (r.next() % 94) as u8;
+            while out.len() < len {
+                let x = r.next();
+                if x % 3 != 0 {
+                    cur = ((x >> 8) % 94) as u8;
+                }
+                out.push(cur);
+            }
+            out
+        }
+    }
+}
+
+struct Seg {
+    flags_own: u16, // 0x4 unmapped, 0x10 reverse, extra bits
+    ref_id: Option<usize>,
+    start: Option<usize>,
+    ref_span: usize,
+    mapq: Option<u8>,
+    cigar: Vec<(u8, usize)>,
+    bases: Vec<u8>,
+    quals: Vec<u8>,
+    aux: Vec<(String, AuxVal)>,
+    edit_features: usize,
+}
+
+impl CramDoc {
+    fn ref_index(&self, i: u8) -> usize {
+        (i as usize).min(self.refs.len().saturating_sub(1))
+    }
+
+    fn seg(&self, r: &Read) -> Seg {
+        let mut flags = r.extra_flags & (0x200 | 0x400);
+        if r.reverse {
+            flags |= 0x10;
+        }
+        let (ref_id, start, ref_span, mapq, cigar, bases, edit_features) = match &r.body {
+            Body::Mapped(a) if !self.refs.is_empty() && !self.refs[self.ref_index(a.ref_idx)].seq.is_empty() => {
+                let ri = self.ref_index(a.ref_idx);
+                let p = place(a, self.refs[ri].seq.as_bytes());
+                let bases = if a.bases_missing { Vec::new() } else { p.bases };
+                (Some(ri), Some(p.start), p.ref_span, r.mapq.filter(|q| *q != 255), p.cigar, bases, p.edit_features)
+            }
+            Body::Mapped(a) => {
+                // no reference at all: degrade to an unplaced unmapped read
+                flags |= 0x4;
+                (None, None, 0, None, Vec::new(), sanitize_bases(&a.lead_soft), 0)
+            }
+            Body::Unmapped { placed, bases } => {
+                flags |= 0x4;
+                let b = sanitize_bases(bases);
+                match placed {
+                    Some((ri, pos, overhang)) if !self.refs.is_empty() && !self.refs[self.ref_index(*ri)].seq.is_empty() => {
+                        let ri = self.ref_index(*ri);
+                        let rlen = self.refs[ri].seq.len();
+                        let mut pos = wrap_pos(*pos, rlen);
+                        if !*overhang {
+                            pos = pos.min(rlen.saturating_sub(b.len().max(1)) + 1).max(1);
+                        }
+                        (Some(ri), Some(pos), 0, None, Vec::new(), b, 0)
+                    }
+                    _ => (None, None, 0, None, Vec::new(), b, 0),
+                }
+            }
+        };
+        let quals = if bases.is_empty() { Vec::new() } else { expand_qual(&r.qual, bases.len()) };
+        let mut aux: Vec<(String, AuxVal)> = Vec::new();
+        for a in &r.tags {
+            let t = norm_tag(&a.tag);
+            if t == "RG" || aux.iter().any(|(x, _)| *x == t) {
+                continue;
+            }
+            aux.push((t, norm_val(&a.val)));
+        }
+        if let (Some(rg), false) = (r.rg, self.read_groups.is_empty()) {
+            let name = self.read_groups[(rg as usize).min(self.read_groups.len() - 1)].clone();
+            let at = (r.rg_at as usize).min(aux.len());
+            aux.insert(at, ("RG".to_string(), AuxVal::Z(name)));
+        }
+        Seg { flags_own: flags, ref_id, start, ref_span, mapq, cigar, bases, quals, aux, edit_features }
+    }
+
+    /// The record stream in file order, with every dependent field computed.
+    pub fn flatten(&self) -> Vec<FlatRec> {
+        let mut recs: Vec<FlatRec> = Vec::new();
+        // distinct templates get distinct names (a collision would make the CRAM writer treat
+        // unrelated segmented reads as mates): a repeated name gets the template index appended
+        let mut used: Vec<Vec<u8>> = Vec::new();
+        let mut uniq = |name: &Option<String>, ti: usize| -> Option<Vec<u8>> {
+            let mut n = norm_name(name.as_ref()?);
+            if used.contains(&n) {
+                n.truncate(240);
+                n.extend_from_slice(format!(".{ti}").as_bytes());
+            }
+            used.push(n.clone());
+            Some(n)
+        };
+        for (ti, t) in self.templates.iter().enumerate() {
+            let name = &match t {
+                Template::Single { name, .. } | Template::Pair { name, .. } => uniq(name, ti),
+            };
+            match t {
+                Template::Single { read, secondary, .. } => {
+                    let s = self.seg(read);
+                    let mut flags = s.flags_own;
+                    if *secondary && flags & 0x4 == 0 {
+                        flags |= 0x100;
+                    }
+                    recs.push(flat(name, flags, s, None, 0, ti, 0));
+                }
+                Template::Pair { r1, r2, drop_r2, extra, .. } => {
+                    let s1 = self.seg(r1);
+                    let s2 = self.seg(r2);
+                    let proper = if r1.extra_flags & 0x2 != 0 && s1.flags_own & 0x4 == 0 && s2.flags_own & 0x4 == 0 { 0x2 } else { 0 };
+                    let f1 = 0x1 | 0x40 | proper | s1.flags_own | mate_bits(&s2);
+                    let f2 = 0x1 | 0x80 | proper | s2.flags_own | mate_bits(&s1);
+                    let (t1, t2) = tlen_pair(&s1, &s2);
+                    let m1 = (s2.ref_id, s2.start);
+                    let m2 = (s1.ref_id, s1.start);
+                    let ex = extra.as_ref().map(|(k, r)| (k, self.seg(r)));
+                    recs.push(flat(name, f1, s1, Some(m1), t1, ti, 0));
+                    if let Some((k, sx)) = ex {
+                        if sx.flags_own & 0x4 == 0 {
+                            let kb = match k {
+                                ExtraKind::Secondary => 0x100,
+                                ExtraKind::Supplementary => 0x800,
+                            };
+                            let fx = 0x1 | 0x40 | proper | sx.flags_own | mate_bits(&s2) | kb;
+                            let (tx, _) = tlen_pair(&sx, &s2);
+                            recs.push(flat(name, fx, sx, Some(m1), tx, ti, 1));
+                        }
+                    }
+                    if !*drop_r2 {
+                        recs.push(flat(name, f2, s2, Some(m2), t2, ti, 2));
+                    }
+                }
+            }
+        }
+        self.apply_order(recs)
+    }
+
+    fn apply_order(&self, recs: Vec<FlatRec>) -> Vec<FlatRec> {
+        let coord = |r: &FlatRec| (r.ref_id.map(|x| x as u64).unwrap_or(u64::MAX), r.start.unwrap_or(usize::MAX) as u64);
+        match &self.order {
+            Order::Listed { left_first } => {
+                let mut recs = recs;
+                if *left_first {
+                    let n = recs.len();
+                    let mut i = 0;
+                    while i < n {
+                        let t = recs[i].template;
+                        let mut j = i;
+                        while j < n && recs[j].template == t {
+                            j += 1;
+                        }
+                        recs[i..j].sort_by_key(|r| coord(r));
+                        i = j;
+                    }
+                }
+                recs
+            }
+            Order::Sorted => {
+                let mut v: Vec<(usize, FlatRec)> = recs.into_iter().enumerate().collect();
+                v.sort_by_key(|(i, r)| (coord(r), *i));
+                v.into_iter().map(|(_, r)| r).collect()
+            }
+            Order::Shuffled { seed, left_first } => {
+                let mut rng = XorShift::new(*seed as u64 + 11);
+                let mut keyed: Vec<(u64, usize, FlatRec)> = recs.into_iter().enumerate().map(|(i, r)| (rng.next() >> 16, i, r)).collect();
+                if *left_first {
+                    // within a template give the smaller keys to the records with the smaller
+                    // coordinates, so no segment precedes a segment to its left
+                    let n = keyed.len();
+                    let mut i = 0;
+                    while i < n {
+                        let t = keyed[i].2.template;
+                        let mut j = i;
+                        while j < n && keyed[j].2.template == t {
+                            j += 1;
+                        }
+                        let mut keys: Vec<u64> = keyed[i..j].iter().map(|k| k.0).collect();
+                        keys.sort();
+                        let mut idx: Vec<usize> = (i..j).collect();
+                        idx.sort_by_key(|&k| (coord(&keyed[k].2), keyed[k].1));
+                        for (rank, k) in idx.into_iter().enumerate() {
+                            keyed[k].0 = keys[rank];
+                        }
+                        i = j;
+                    }
+                }
+                keyed.sort_by_key(|(k, i, _)| (*k, *i));
+                keyed.into_iter().map(|(_, _, r)| r).collect()
+            }
+        }
+    }
+}
+
+fn mate_bits(mate: &Seg) -> u16 {
+    let mut f = 0;
+    if mate.flags_own & 0x10 != 0 {
+        f |= 0x20;
+    }
+    if mate.flags_own & 0x4 != 0 {
+        f |= 0x8;
+    }
+    f
+}
+
+/// TLEN by the SAM specification: both segments mapped to the same reference ⇒ ± (rightmost
+/// mapped base − leftmost mapped base + 1), plus for the leftmost segment; otherwise 0. Equal
+/// starts: the first argument counts as leftmost (the specification leaves this open; checks must
+/// not assert the sign there).
+fn tlen_pair(a: &Seg, b: &Seg) -> (i32, i32) {
+    let mapped = |s: &Seg| s.flags_own & 0x4 == 0 && s.ref_id.is_some() && s.start.is_some();
+    if !mapped(a) || !mapped(b) || a.ref_id != b.ref_id {
+        return (0, 0);
+    }
+    let (sa, sb) = (a.start.unwrap(), b.start.unwrap());
+    let (ea, eb) = (sa + a.ref_span.max(1) - 1, sb + b.ref_span.max(1) - 1);
+    let len = (ea.max(eb) - sa.min(sb) + 1) as i32;
+    if sa <= sb { (len, -len) } else { (-len, len) }
+}
+
+fn flat(name: &Option<Vec<u8>>, flags: u16, s: Seg, mate: Option<(Option<usize>, Option<usize>)>, tlen: i32, template: usize, role: u8) -> FlatRec {
+    let (mate_ref_id, mate_start) = mate.unwrap_or((None, None));
+    FlatRec {
+        name: name.clone(),
+        flags,
+        ref_id: s.ref_id,
+        start: s.start,
+        ref_span: s.ref_span,
+        mapq: if flags & 0x4 != 0 { None } else { s.mapq },
+        cigar: s.cigar,
+        mate_ref_id,
+        mate_start,
+        tlen,
+        bases: s.bases,
+        quals: s.quals,
+        aux: s.aux,
+        template,
+        role,
+        edit_features: s.edit_features,
+    }
+}
+
+fn norm_name(n: &str) -> Vec<u8> {
+    let mut v: Vec<u8> = n.bytes().filter(|b| (b'!'..=b'~').contains(b) && *b != b'@').take(254).collect();
+    if v.is_empty() || v == b"*" {
+        v = b"q".to_vec();
+    }
+    v
+}
+
+fn norm_tag(t: &str) -> String {
+    let b: Vec<u8> = t.bytes().collect();
+    let c0 = b.first().copied().filter(|c| c.is_ascii_alphabetic()).unwrap_or(b'X');
+    let c1 = b.get(1).copied().filter(|c| c.is_ascii_alphanumeric()).unwrap_or(b'0');
+    String::from_utf8(vec![c0, c1]).unwrap()
+}
+
+fn norm_val(v: &AuxVal) -> AuxVal {
+    match v {
+        AuxVal::A(c) => AuxVal::A(if (b'!'..=b'~').contains(c) { *c } else { b'!' }),
+        AuxVal::Z(s) => AuxVal::Z(s.chars().filter(|c| (' '..='~').contains(c)).collect()),
+        AuxVal::H(s) => {
+            let mut h: String = s.chars().filter(|c| c.is_ascii_hexdigit()).map(|c| c.to_ascii_uppercase()).collect();
+            if h.len() % 2 == 1 {
+                h.pop();
+            }
+            AuxVal::H(h)
+        }
+        other => other.clone(),
+    }
+}
+
+// ---------------------------------------------------------------------------------------------
+// conversions to noodles values
+// ---------------------------------------------------------------------------------------------
+
+pub struct Noodles {
+    pub header: sam::Header,
+    pub repository: fasta::Repository,
+    pub records: Vec<RecordBuf>,
+    pub flat: Vec<FlatRec>,
+}
+
+pub fn md5_upper(seq: &[u8]) -> [u8; 16] {
+    use md5::{Digest, Md5};
+    let up: Vec<u8> = seq.iter().map(|b| b.to_ascii_uppercase()).collect();
+    let mut h = Md5::new();
+    h.update(&up);
+    h.finalize().into()
+}
+
+pub fn hex(b: &[u8]) -> String {
+    b.iter().map(|x| format!("{x:02x}")).collect()
+}
+
+fn kind_of(c: u8) -> Kind {
+    match c {
+        b'M' => Kind::Match,
+        b'I' => Kind::Insertion,
+        b'D' => Kind::Deletion,
+        b'N' => Kind::Skip,
+        b'S' => Kind::SoftClip,
+        b'H' => Kind::HardClip,
+        b'P' => Kind::Pad,
+        b'=' => Kind::SequenceMatch,
+        _ => Kind::SequenceMismatch,
+    }
+}
+
+pub fn kind_char(k: Kind) -> u8 {
+    match k {
+        Kind::Match => b'M',
+        Kind::Insertion => b'I',
+        Kind::Deletion => b'D',
+        Kind::Skip => b'N',
+        Kind::SoftClip => b'S',
+        Kind::HardClip => b'H',
+        Kind::Pad => b'P',
+        Kind::SequenceMatch => b'=',
+        Kind::SequenceMismatch => b'X',
+    }
+}
+
+pub fn aux_to_value(v: &AuxVal) -> Value {
+    match v {
+        AuxVal::A(c) => Value::Character(*c),
+        AuxVal::I8(n) => Value::Int8(*n),
+        AuxVal::U8(n) => Value::UInt8(*n),
+        AuxVal::I16(n) => Value::Int16(*n),
+        AuxVal::U16(n) => Value::UInt16(*n),
+        AuxVal::I32(n) => Value::Int32(*n),
+        AuxVal::U32(n) => Value::UInt32(*n),
+        AuxVal::F(b) => Value::Float(f32::from_bits(*b)),
+        AuxVal::Z(s) => Value::String(s.as_bytes().into()),
+        AuxVal::H(s) => Value::Hex(s.as_bytes().into()),
+        AuxVal::BI8(a) => Value::Array(Array::Int8(a.clone())),
+        AuxVal::BU8(a) => Value::Array(Array::UInt8(a.clone())),
+        AuxVal::BI16(a) => Value::Array(Array::Int16(a.clone())),
+        AuxVal::BU16(a) => Value::Array(Array::UInt16(a.clone())),
+        AuxVal::BI32(a) => Value::Array(Array::Int32(a.clone())),
+        AuxVal::BU32(a) => Value::Array(Array::UInt32(a.clone())),
+        AuxVal::BF(a) => Value::Array(Array::Float(a.iter().map(|b| f32::from_bits(*b)).collect())),
+    }
+}
+
+/// The inverse of `aux_to_value` (floats by bit pattern, integer types exact).
+pub fn value_to_aux(v: &Value) -> AuxVal {
+    match v {
+        Value::Character(c) => AuxVal::A(*c),
+        Value::Int8(n) => AuxVal::I8(*n),
+        Value::UInt8(n) => AuxVal::U8(*n),
+        Value::Int16(n) => AuxVal::I16(*n),
+        Value::UInt16(n) => AuxVal::U16(*n),
+        Value::Int32(n) => AuxVal::I32(*n),
+        Value::UInt32(n) => AuxVal::U32(*n),
+        Value::Float(f) => AuxVal::F(f.to_bits()),
+        Value::String(s) => AuxVal::Z(String::from_utf8_lossy(s).into_owned()),
+        Value::Hex(s) => AuxVal::H(String::from_utf8_lossy(s).into_owned()),
+        Value::Array(Array::Int8(a)) => AuxVal::BI8(a.clone()),
+        Value::Array(Array::UInt8(a)) => AuxVal::BU8(a.clone()),
+        Value::Array(Array::Int16(a)) => AuxVal::BI16(a.clone()),
+        Value::Array(Array::UInt16(a)) => AuxVal::BU16(a.clone()),
+        Value::Array(Array::Int32(a)) => AuxVal::BI32(a.clone()),
+        Value::Array(Array::UInt32(a)) => AuxVal::BU32(a.clone()),
+        Value::Array(Array::Float(a)) => AuxVal::BF(a.iter().map(|f| f.to_bits()).collect()),
+    }
+}
+
+pub fn aux_type_char(v: &AuxVal) -> u8 {
+    match v {
+        AuxVal::A(_) => b'A',
+        AuxVal::I8(_) => b'c',
+        AuxVal::U8(_) => b'C',
+        AuxVal::I16(_) => b's',
+        AuxVal::U16(_) => b'S',
+        AuxVal::I32(_) => b'i',
+        AuxVal::U32(_) => b'I',
+        AuxVal::F(_) => b'f',
+        AuxVal::Z(_) => b'Z',
+        AuxVal::H(_) => b'H',
+        _ => b'B',
+    }
+}
+
+fn tag_of(t: &str) -> Tag {
+    let b = t.as_bytes();
+    Tag::new(b[0], b[1])
+}
+
+pub fn to_record_buf(r: &FlatRec) -> RecordBuf {
+    let mut b = RecordBuf::builder().set_flags(sam::alignment::record::Flags::from(r.flags)).set_template_length(r.tlen);
+    if let Some(n) = &r.name {
+        b = b.set_name(&n[..]);
+    }
+    if let Some(id) = r.ref_id {
+        b = b.set_reference_sequence_id(id);
+    }
+    if let Some(p) = r.start.and_then(Position::new) {
+        b = b.set_alignment_start(p);
+    }
+    if let Some(q) = r.mapq.and_then(sam::alignment::record::MappingQuality::new) {
+        b = b.set_mapping_quality(q);
+    }
+    if !r.cigar.is_empty() {
+        b = b.set_cigar(r.cigar.iter().map(|(k, n)| Op::new(kind_of(*k), *n)).collect());
+    }
+    if let Some(id) = r.mate_ref_id {
+        b = b.set_mate_reference_sequence_id(id);
+    }
+    if let Some(p) = r.mate_start.and_then(Position::new) {
+        b = b.set_mate_alignment_start(p);
+    }
+    b = b.set_sequence(sam::alignment::record_buf::Sequence::from(r.bases.clone()));
+    b = b.set_quality_scores(sam::alignment::record_buf::QualityScores::from(r.quals.clone()));
+    let data: sam::alignment::record_buf::Data = r.aux.iter().map(|(t, v)| (tag_of(t), aux_to_value(v))).collect();
+    b.set_data(data).build()
+}
+
+impl CramDoc {
+    /// The header as handed to the writer.
+    pub fn header(&self) -> sam::Header {
+        use sam::header::record::value::{
+            Map,
+            map::{self, ReferenceSequence, header::Version, header::tag as hdtag, reference_sequence::tag as sqtag},
+        };
+        let mut b = sam::Header::builder();
+        if let Some(so) = &self.sort_order_tag {
+            let mut hd = Map::<map::Header>::new(Version::new(1, 6));
+            hd.other_fields_mut().insert(hdtag::SORT_ORDER, so.as_bytes().into());
+            b = b.set_header(hd);
+        }
+        for r in &self.refs {
+            let mut m = Map::<ReferenceSequence>::new(NonZeroUsize::new(r.seq.len().max(1)).unwrap());
+            if self.m5_in_header {
+                m.other_fields_mut().insert(sqtag::MD5_CHECKSUM, hex(&md5_upper(r.seq.as_bytes())).into_bytes().into());
+            }
+            b = b.add_reference_sequence(r.name.as_bytes(), m);
+        }
+        for g in &self.read_groups {
+            b = b.add_read_group(g.as_bytes(), Default::default());
+        }
+        for c in &self.comments {
+            b = b.add_comment(c.as_bytes());
+        }
+        b.build()
+    }
+
+    /// The header a reader must return: the written one with `M5` filled in on every `@SQ`.
+    pub fn expected_header(&self) -> sam::Header {
+        let mut d = self.clone();
+        d.m5_in_header = true;
+        d.header()
+    }
+
+    pub fn repository(&self) -> fasta::Repository {
+        let recs: Vec<fasta::Record> = self
+            .refs
+            .iter()
+            .map(|r| fasta::Record::new(fasta::record::Definition::new(r.name.as_bytes(), None), fasta::record::Sequence::from(r.seq.as_bytes().to_vec())))
+            .collect();
+        fasta::Repository::new(recs)
+    }
+
+    pub fn to_noodles(&self) -> Noodles {
+        let flat = self.flatten();
+        let records = flat.iter().map(to_record_buf).collect();
+        Noodles { header: self.header(), repository: self.repository(), records, flat }
+    }
+
+    /// Records per slice the writer will use.
+    pub fn records_per_slice(&self) -> usize {
+        if self.opts.records_per_slice == 0 { 10_240 } else { self.opts.records_per_slice as usize }
+    }
+}
+
+pub const SERIES: [cram::container::compression_header::data_series_encodings::DataSeries; N_SERIES] = {
+    use cram::container::compression_header::data_series_encodings::DataSeries as D;
+    [
+        D::BamFlags,
+        D::CramFlags,
+        D::ReferenceSequenceIds,
+        D::ReadLengths,
+        D::AlignmentStarts,
+        D::ReadGroupIds,
+        D::Names,
+        D::MateFlags,
+        D::MateReferenceSequenceIds,
+        D::MateAlignmentStarts,
+        D::TemplateLengths,
+        D::MateDistances,
+        D::TagSetIds,
+        D::FeatureCounts,
+        D::FeatureCodes,
+        D::FeaturePositionDeltas,
+        D::DeletionLengths,
+        D::StretchesOfBases,
+        D::StretchesOfQualityScores,
+        D::BaseSubstitutionCodes,
+        D::InsertionBases,
+        D::ReferenceSkipLengths,
+        D::PaddingLengths,
+        D::HardClipLengths,
+        D::SoftClipBases,
+        D::MappingQualities,
+        D::Bases,
+        D::QualityScores,
+    ]
+};
+
+pub fn to_encoder(e: &Enc) -> Option<cram::codecs::Encoder> {
+    use cram::codecs::{Encoder, aac, rans_4x8, rans_nx16};
+    match e {
+        Enc::None => None,
+        Enc::Gzip(l) => Some(Encoder::Gzip(flate2::Compression::new((*l).min(9) as u32))),
+        Enc::Bzip2(l) => Some(Encoder::Bzip2(bzip2::Compression::new((*l).clamp(1, 9) as u32))),
+        Enc::Lzma(l) => Some(Encoder::Lzma((*l).min(9) as u32)),
+        Enc::Rans4x8(o) => Some(Encoder::Rans4x8(if *o == 0 { rans_4x8::Order::Zero } else { rans_4x8::Order::One })),
+        Enc::RansNx16(f) => Some(Encoder::RansNx16(rans_nx16::Flags::from_bits_retain(*f))),
+        Enc::Aac(f) => Some(Encoder::AdaptiveArithmeticCoding(aac::Flags::from_bits_retain(*f))),
+        Enc::NameTok => Some(Encoder::NameTokenizer),
+        Enc::Fqz => Some(Encoder::Fqzcomp),
+    }
+}
+
+/// CRAM 3.1-only codec?
+pub fn is_31(e: &Enc) -> bool {
+    matches!(e, Enc::RansNx16(_) | Enc::Aac(_) | Enc::NameTok | Enc::Fqz)
+}
+
+/// The (tag, type) keys used by the records, in first-use order.
+pub fn tag_keys(flat: &[FlatRec]) -> Vec<(String, u8)> {
+    let mut keys: Vec<(String, u8)> = Vec::new();
+    for r in flat {
+        for (t, v) in &r.aux {
+            let k = (t.clone(), aux_type_char(v));
+            if !keys.contains(&k) {
+                keys.push(k);
+            }
+        }
+    }
+    keys
+}
+
+pub fn tag_rule_pick<'a>(rule: &'a [Enc], tag: &str, ty: u8) -> Option<&'a Enc> {
+    if rule.is_empty() {
+        return None;
+    }
+    let mut k = tag.as_bytes().to_vec();
+    k.push(ty);
+    Some(&rule[(fnv(&k) % rule.len() as u64) as usize])
+}
+
+fn type_of(ty: u8) -> sam::alignment::record::data::field::Type {
+    use sam::alignment::record::data::field::Type as T;
+    match ty {
+        b'A' => T::Character,
+        b'c' => T::Int8,
+        b'C' => T::UInt8,
+        b's' => T::Int16,
+        b'S' => T::UInt16,
+        b'i' => T::Int32,
+        b'I' => T::UInt32,
+        b'f' => T::Float,
+        b'Z' => T::String,
+        b'H' => T::Hex,
+        _ => T::Array,
+    }
+}
+
+pub fn to_encoder_map(m: &EncMap, flat: &[FlatRec]) -> cram::container::BlockContentEncoderMap {
+    use cram::container::compression_header::preservation_map::tag_sets::Key;
+    let mut b = cram::container::BlockContentEncoderMap::builder().set_core_data_encoder(to_encoder(&m.core)).set_default_encoder(to_encoder(&m.default));
+    for (i, ds) in SERIES.iter().enumerate() {
+        b = b.set_data_series_encoder(*ds, m.series.get(i).and_then(to_encoder));
+    }
+    for (t, ty) in tag_keys(flat) {
+        if let Some(e) = tag_rule_pick(&m.tag_rule, &t, ty) {
+            b = b.set_tag_values_encoder(Key::new(tag_of(&t), type_of(ty)), to_encoder(e));
+        }
+    }
+    b.build()
+}
+
+pub fn writer_builder(doc: &CramDoc, n: &Noodles) -> cram::io::writer::Builder {
+    let mut b = cram::io::writer::Builder::default()
+        .set_reference_sequence_repository(n.repository.clone())
+        .preserve_read_names(doc.opts.preserve_read_names)
+        .encode_alignment_start_positions_as_deltas(doc.opts.ap_delta);
+    if doc.opts.records_per_slice != 0 {
+        b = b.verif_set_records_per_slice(doc.opts.records_per_slice as usize);
+    }
+    if let Some(m) = &doc.opts.enc {
+        b = b.set_block_content_encoder_map(to_encoder_map(m, &n.flat));
+    }
+    b
+}
+
+/// The async twin of `writer_builder` (same options, same hook).
+pub fn async_writer_builder(doc: &CramDoc, n: &Noodles) -> cram::r#async::io::writer::Builder {
+    let mut b = cram::r#async::io::writer::Builder::default()
+        .set_reference_sequence_repository(n.repository.clone())
+        .preserve_read_names(doc.opts.preserve_read_names)
+        .encode_alignment_start_positions_as_deltas(doc.opts.ap_delta);
+    if doc.opts.records_per_slice != 0 {
+        b = b.verif_set_records_per_slice(doc.opts.records_per_slice as usize);
+    }
+    if let Some(m) = &doc.opts.enc {
+        b = b.set_block_content_encoder_map(to_encoder_map(m, &n.flat));
+    }
+    b
+}
+
+/// Write the document with `cram::io::Writer` following its documented protocol
+/// (`write_header`, records, `try_finish`).
+pub fn write_noodles(doc: &CramDoc, n: &Noodles) -> io::Result<Vec<u8>> {
+    let mut w = writer_builder(doc, n).build_from_writer(Vec::new());
+    w.write_header(&n.header)?;
+    for r in &n.records {
+        w.write_alignment_record(&n.header, r)?;
+    }
+    w.try_finish(&n.header)?;
+    Ok(w.into_inner())
+}
+
+pub fn write_with_noodles(doc: &CramDoc) -> io::Result<Vec<u8>> {
+    let n = doc.to_noodles();
+    write_noodles(doc, &n)
+}
+
+/// Read a CRAM byte string with the document's repository: (header, records).
+pub fn read_noodles(bytes: &[u8], repository: &fasta::Repository) -> io::Result<(sam::Header, Vec<RecordBuf>)> {
+    let mut r = cram::io::reader::Builder::default().set_reference_sequence_repository(repository.clone()).build_from_reader(bytes);
+    let header = r.read_header()?;
+    let mut out = Vec::new();
+    for rec in r.records(&header) {
+        out.push(rec?);
+    }
+    Ok((header, out))
+}
+
+pub fn read_with_noodles(bytes: &[u8], doc: &CramDoc) -> io::Result<Vec<RecordBuf>> {
+    read_noodles(bytes, &doc.repository()).map(|(_, r)| r)
+}
+
+// ---------------------------------------------------------------------------------------------
+// canonical comparison
+// ---------------------------------------------------------------------------------------------
+
+/// What CRAM is specified to keep of a record (the normal form both sides are mapped to):
+/// `=`/`X` become `M` and adjacent equal ops merge (CRAM rebuilds the CIGAR from read features),
+/// bases are upper-cased, unmapped reads carry no MAPQ, aux fields are sorted by tag (SAM gives
+/// their order no meaning; CRAM keeps RG out of line).
+#[derive(Clone, Debug, PartialEq)]
+pub struct Canon {
+    pub name: Option<Vec<u8>>,
+    pub flags: u16,
+    pub ref_id: Option<usize>,
+    pub start: Option<usize>,
+    pub mapq: Option<u8>,
+    pub cigar: Vec<(u8, usize)>,
+    pub mate_ref_id: Option<usize>,
+    pub mate_start: Option<usize>,
+    pub tlen: i32,
+    pub bases: Vec<u8>,
+    pub quals: Vec<u8>,
+    /// sorted by tag; a duplicated tag stays duplicated
+    pub aux: Vec<(String, AuxVal)>,
+}
+
+pub fn canon_cigar(c: &[(u8, usize)]) -> Vec<(u8, usize)> {
+    let mut out = Vec::new();
+    for (k, n) in c {
+        let k = if *k == b'=' || *k == b'X' { b'M' } else { *k };
+        push_op(&mut out, k, *n);
+    }
+    out
+}
+
+pub fn canon_of_flat(r: &FlatRec) -> Canon {
+    let mut aux = r.aux.clone();
+    aux.sort_by(|a, b| a.0.cmp(&b.0));
+    Canon {
+        name: r.name.clone(),
+        flags: r.flags,
+        ref_id: r.ref_id,
+        start: r.start,
+        mapq: if r.is_unmapped() { None } else { r.mapq },
+        cigar: canon_cigar(&r.cigar),
+        mate_ref_id: r.mate_ref_id,
+        mate_start: r.mate_start,
+        tlen: r.tlen,
+        bases: r.bases.to_ascii_uppercase(),
+        quals: r.quals.clone(),
+        aux,
+    }
+}
+
+pub fn canon_of_record(r: &RecordBuf) -> Canon {
+    let flags = u16::from(r.flags());
+    let mut aux: Vec<(String, AuxVal)> = r.data().iter().map(|(t, v)| (String::from_utf8_lossy(t.as_ref()).into_owned(), value_to_aux(v))).collect();
+    aux.sort_by(|a, b| a.0.cmp(&b.0));
+    let cigar: Vec<(u8, usize)> = r.cigar().as_ref().iter().map(|op| (kind_char(op.kind()), op.len())).collect();
+    Canon {
+        name: r.name().map(|n| n.to_vec()),
+        flags,
+        ref_id: r.reference_sequence_id(),
+        start: r.alignment_start().map(usize::from),
+        mapq: if flags & 0x4 != 0 { None } else { r.mapping_quality().map(u8::from) },
+        cigar: canon_cigar(&cigar),
+        mate_ref_id: r.mate_reference_sequence_id(),
+        mate_start: r.mate_alignment_start().map(usize::from),
+        tlen: r.template_length(),
+        bases: r.sequence().as_ref().to_ascii_uppercase(),
+        quals: r.quality_scores().as_ref().to_vec(),
+        aux,
+    }
+}
+
+pub fn cigar_text(c: &[(u8, usize)]) -> String {
+    if c.is_empty() {
+        return "*".into();
+    }
+    c.iter().map(|(k, n)| format!("{}{}", n, *k as char)).collect()
+}
+
+fn aux_text(t: &str, v: &AuxVal) -> String {
+    fn join<T: std::fmt::Display>(c: char, a: &[T]) -> String {
+        let mut s = format!("B:{c}");
+        for x in a {
+            s.push_str(&format!(",{x}"));
+        }
+        s
+    }
+    let body = match v {
+        AuxVal::A(c) => format!("A:{}", *c as char),
+        AuxVal::I8(n) => format!("c:{n}"),
+        AuxVal::U8(n) => format!("C:{n}"),
+        AuxVal::I16(n) => format!("s:{n}"),
+        AuxVal::U16(n) => format!("S:{n}"),
+        AuxVal::I32(n) => format!("i:{n}"),
+        AuxVal::U32(n) => format!("I:{n}"),
+        AuxVal::F(b) => format!("f:0x{b:08x}"),
+        AuxVal::Z(s) => format!("Z:{s}"),
+        AuxVal::H(s) => format!("H:{s}"),
+        AuxVal::BI8(a) => join('c', a),
+        AuxVal::BU8(a) => join('C', a),
+        AuxVal::BI16(a) => join('s', a),
+        AuxVal::BU16(a) => join('S', a),
+        AuxVal::BI32(a) => join('i', a),
+        AuxVal::BU32(a) => join('I', a),
+        AuxVal::BF(a) => join('f', &a.iter().map(|b| format!("0x{b:08x}")).collect::<Vec<_>>()),
+    };
+    format!("{t}:{body}")
+}
+
+/// One SAM-like line per record in the canonical form (integer aux types spelled out, floats as
+/// bit patterns), suitable for transcripts.
+pub fn canonical_text(c: &Canon) -> String {
+    let opt = |o: Option<usize>| o.map(|x| x.to_string()).unwrap_or_else(|| "*".into());
+    let mut s = format!(
+        "{}\t{}\t{}\t{}\t{}\t{}\t{}\t{}\t{}\t{}\t{}",
+        c.name.as_ref().map(|n| String::from_utf8_lossy(n).into_owned()).unwrap_or_else(|| "*".into()),
+        c.flags,
+        opt(c.ref_id),
+        opt(c.start),
+        c.mapq.map(|q| q.to_string()).unwrap_or_else(|| "255".into()),
+        cigar_text(&c.cigar),
+        opt(c.mate_ref_id),
+        opt(c.mate_start),
+        c.tlen,
+        if c.bases.is_empty() { "*".to_string() } else { String::from_utf8_lossy(&c.bases).into_owned() },
+        if c.quals.is_empty() { "*".to_string() } else { c.quals.iter().map(|q| ((*q).min(93) + 33) as char).collect() },
+    );
+    for (t, v) in &c.aux {
+        s.push('\t');
+        s.push_str(&aux_text(t, v));
+    }
+    s
+}
+
+pub fn canonical_text_of_record(r: &RecordBuf) -> String {
+    canonical_text(&canon_of_record(r))
+}
+
+// ---------------------------------------------------------------------------------------------
+// hazard classification (predicates on the document; used for labels and for `Params::safe`)
+// ---------------------------------------------------------------------------------------------
+
+/// Classes of input that the pinned noodles tree is known (by probe) to mishandle. Computed from
+/// the flattened document and the slice layout implied by `records_per_slice` (one slice per
+/// container: record `i` lives in slice `i / records_per_slice`).
+#[derive(Clone, Debug, Default, PartialEq)]
+pub struct Hazards {
+    pub missing_name: bool,
+    /// a record with bases but without quality scores
+    pub missing_quals: bool,
+    /// a mapped record with a CIGAR but no bases
+    pub mapped_missing_bases: bool,
+    /// an unmapped record without bases
+    pub unmapped_missing_bases: bool,
+    /// a placed unmapped read whose `start + len - 1` passes the end of its reference
+    pub placed_unmapped_overhang: bool,
+    /// two or more primary/supplementary lines of one template in one slice where file order is
+    /// not left-to-right, the template has more than two such lines, the segments lie on
+    /// different references, or one of them is unmapped-but-placed (TLEN/mate recomputation)
+    pub in_slice_chain_irregular: bool,
+    /// segmented records without a name sharing a slice (chained to each other by the writer)
+    pub unnamed_segmented_in_slice: bool,
+}
+
+impl Hazards {
+    pub fn any(&self) -> bool {
+        self.missing_name
+            || self.missing_quals
+            || self.mapped_missing_bases
+            || self.unmapped_missing_bases
+            || self.placed_unmapped_overhang
+            || self.in_slice_chain_irregular
+            || self.unnamed_segmented_in_slice
+    }
+}
+
+pub fn hazards(doc: &CramDoc, flat: &[FlatRec]) -> Hazards {
+    let mut h = Hazards::default();
+    let rps = doc.records_per_slice();
+    for r in flat {
+        if r.name.is_none() {
+            h.missing_name = true;
+        }
+        if !r.bases.is_empty() && r.quals.is_empty() {
+            h.missing_quals = true;
+        }
+        if !r.is_unmapped() && r.bases.is_empty() {
+            h.mapped_missing_bases = true;
+        }
+        if r.is_unmapped() && r.bases.is_empty() {
+            h.unmapped_missing_bases = true;
+        }
+        if r.is_unmapped() {
+            if let (Some(id), Some(s)) = (r.ref_id, r.start) {
+                let rlen = doc.refs[id].seq.len();
+                if s + r.bases.len().max(1) - 1 > rlen {
+                    h.placed_unmapped_overhang = true;
+                }
+            }
+        }
+    }
+    for (si, slice) in flat.chunks(rps.max(1)).enumerate() {
+        let _ = si;
+        // chains as the writer builds them: segmented && !secondary, keyed by name
+        let mut seen: Vec<(&Option<Vec<u8>>, Vec<&FlatRec>)> = Vec::new();
+        for r in slice {
+            if r.flags & 0x1 != 0 && r.flags & 0x100 == 0 {
+                if let Some(e) = seen.iter_mut().find(|(n, _)| *n == &r.name) {
+                    e.1.push(r);
+                } else {
+                    seen.push((&r.name, vec![r]));
+                }
+            }
+        }
+        for (name, chain) in &seen {
+            if chain.len() < 2 {
+                continue;
+            }
+            if name.is_none() {
+                h.unnamed_segmented_in_slice = true;
+                continue;
+            }
+            let irregular = chain.len() > 2
+                || chain.iter().any(|r| r.is_unmapped() && r.ref_id.is_some())
+                || chain[0].ref_id != chain[1].ref_id
+                || match (chain[0].start, chain[1].start) {
+                    (Some(a), Some(b)) => a > b,
+                    _ => false,
+                };
+            if irregular {
+                h.in_slice_chain_irregular = true;
+            }
+        }
+    }
+    h
+}
+
+// ---------------------------------------------------------------------------------------------
+// strategies
+// ---------------------------------------------------------------------------------------------
+
+#[derive(Clone, Debug)]
+pub struct Params {
+    pub max_refs: usize,
+    pub max_ref_len: usize,
+    pub max_templates: usize,
+    /// always coordinate-sorted
+    pub sorted_only: bool,
+    /// allow generated (non-default) encoder maps
+    pub encoders: bool,
+    /// generate unmapped reads (unplaced; placed ones are a hazard class of their own)
+    pub unmapped: bool,
+    /// weights (out of 100 per record / per document) of the hazard classes; 0 = never
+    pub w_missing_name: u32,
+    pub w_missing_quals: u32,
+    pub w_mapped_missing_bases: u32,
+    pub w_unmapped_missing_bases: u32,
+    pub w_placed_unmapped: u32,
+    pub w_supplementary: u32,
+    /// shuffled order may put the rightmost segment first
+    pub w_right_first: u32,
+    /// pairs whose segments lie on different references
+    pub w_chimeric: u32,
+}
+
+impl Params {
+    /// Only inputs the pinned tree round-trips (modulo the slice-layout dependent classes, which
+    /// callers can test for with `hazards`).
+    pub fn safe() -> Params {
+        Params {
+            max_refs: 3,
+            max_ref_len: 300,
+            max_templates: 16,
+            sorted_only: false,
+            encoders: true,
+            unmapped: true,
+            w_missing_name: 0,
+            w_missing_quals: 0,
+            w_mapped_missing_bases: 0,
+            w_unmapped_missing_bases: 0,
+            w_placed_unmapped: 0,
+            w_supplementary: 0,
+            w_right_first: 0,
+            w_chimeric: 0,
+        }
+    }
+    /// `safe()` with the writer's default encoder map only: what format drivers that need a
+    /// document that certainly round-trips on the pinned tree should use (the rANS / arithmetic /
+    /// tokenizer / fqzcomp codecs of the pinned tree fail on many small series).
+    pub fn robust() -> Params {
+        Params { encoders: false, ..Params::safe() }
+    }
+    /// The safe domain plus exactly one hazard class at a high in-document rate (so that one
+    /// document shows one class, and failure signatures stay attributable).
+    pub fn with_hazard(kind: HazardKind) -> Params {
+        let mut p = Params::safe();
+        match kind {
+            HazardKind::MissingName => p.w_missing_name = 25,
+            HazardKind::MissingQuals => p.w_missing_quals = 25,
+            HazardKind::MappedMissingBases => p.w_mapped_missing_bases = 20,
+            HazardKind::UnmappedMissingBases => p.w_unmapped_missing_bases = 40,
+            HazardKind::PlacedUnmapped => p.w_placed_unmapped = 30,
+            HazardKind::Supplementary => p.w_supplementary = 40,
+            HazardKind::RightFirst => p.w_right_first = 100,
+            HazardKind::Chimeric => p.w_chimeric = 50,
+        }
+        p
+    }
+}
+
+#[derive(Clone, Copy, Debug, PartialEq, Eq)]
+pub enum HazardKind {
+    MissingName,
+    MissingQuals,
+    MappedMissingBases,
+    UnmappedMissingBases,
+    PlacedUnmapped,
+    Supplementary,
+    RightFirst,
+    Chimeric,
+}
+
+pub const HAZARD_KINDS: [HazardKind; 8] = [
+    HazardKind::MissingName,
+    HazardKind::MissingQuals,
+    HazardKind::MappedMissingBases,
+    HazardKind::UnmappedMissingBases,
+    HazardKind::PlacedUnmapped,
+    HazardKind::Supplementary,
+    HazardKind::RightFirst,
+    HazardKind::Chimeric,
+];
+
+/// The whole domain of the C07 statement: `safe_weight` parts safe documents, one part per hazard
+/// class.
+pub fn full_strategy(safe_weight: u32) -> BoxedStrategy<CramDoc> {
+    let mut alts: Vec<(u32, BoxedStrategy<CramDoc>)> = vec![(safe_weight, doc_strategy(Params::safe()))];
+    for k in HAZARD_KINDS {
+        alts.push((1, doc_strategy(Params::with_hazard(k))));
+    }
+    prop::strategy::Union::new_weighted(alts).boxed()
+}
+
+fn weighted_bool(w: u32) -> BoxedStrategy<bool> {
+    if w == 0 { Just(false).boxed() } else { prop::bool::weighted(w as f64 / 100.0).boxed() }
+}
+
+pub fn ref_seq_strategy(max_len: usize) -> BoxedStrategy<String> {
+    // segments: (class, length, seed)
+    let seg = (0u8..10, 1usize..60, any::<u32>());
+    prop::collection::vec(seg, 1..8)
+        .prop_map(move |segs| {
+            let mut s = Vec::new();
+            for (class, len, seed) in segs {
+                let mut r = XorShift::new(seed as u64 + 3);
+                for _ in 0..len {
+                    let x = r.next();
+                    let b = match class {
+                        0..=5 => b"ACGT"[(x % 4) as usize],
+                        6 => b'N',
+                        7 => b"acgt"[(x % 4) as usize],
+                        8 => b"ACGTRYKMSWN"[(x % 11) as usize],
+                        _ => b"AAAC"[(x % 4) as usize],
+                    };
+                    s.push(b);
+                }
+            }
+            s.truncate(max_len.max(1));
+            String::from_utf8(s).unwrap()
+        })
+        .boxed()
+}
+
+fn bases_strategy(max: usize) -> BoxedStrategy<String> {
+    prop_oneof![
+        12 => prop::collection::vec(prop::sample::select(b"ACGT".to_vec()), 0..=max),
+        2 => prop::collection::vec(prop::sample::select(b"ACGTNacgtn".to_vec()), 0..=max),
+        1 => prop::collection::vec(prop::sample::select(b"ACGTNacgtnRYKMSWBDHV".to_vec()), 0..=max),
+    ]
+    .prop_map(|v| String::from_utf8(v).unwrap())
+    .boxed()
+}
+
+fn nonempty_bases_strategy(max: usize) -> BoxedStrategy<String> {
+    bases_strategy(max).prop_map(|s| if s.is_empty() { "A".to_string() } else { s }).boxed()
+}
+
+fn edit_strategy() -> BoxedStrategy<Edit> {
+    prop_oneof![
+        10 => (1u16..30).prop_map(Edit::Eq),
+        6 => any::<u8>().prop_map(Edit::Sub),
+        3 => nonempty_bases_strategy(5).prop_map(Edit::Ins),
+        3 => (1u16..12).prop_map(Edit::Del),
+        1 => (1u16..60).prop_map(Edit::Skip),
+        1 => (1u16..4).prop_map(Edit::Pad),
+    ]
+    .boxed()
+}
+
+fn aligned_strategy(p: &Params) -> BoxedStrategy<Aligned> {
+    let max_ref_len = p.max_ref_len as u32;
+    let w_mb = p.w_mapped_missing_bases;
+    (
+        0u8..(p.max_refs.max(1) as u8),
+        prop_oneof![4 => 1u32..=max_ref_len, 1 => 1u32..4],
+        prop_oneof![8 => Just(0u16), 1 => 1u16..20],
+        prop_oneof![6 => Just(String::new()), 2 => bases_strategy(6)],
+        prop_oneof![
+            3 => Just(vec![Edit::Eq(20)]),
+            8 => prop::collection::vec(edit_strategy(), 1..8),
+        ],
+        prop_oneof![6 => Just(String::new()), 2 => bases_strategy(6)],
+        prop_oneof![8 => Just(0u16), 1 => 1u16..20],
+        prop::bool::weighted(0.08),
+        prop::bool::weighted(0.06),
+        weighted_bool(w_mb),
+    )
+        .prop_map(|(ref_idx, start, lead_hard, lead_soft, edits, trail_soft, trail_hard, eqx, flip_case, bases_missing)| Aligned {
+            ref_idx,
+            start,
+            lead_hard,
+            lead_soft,
+            edits,
+            trail_soft,
+            trail_hard,
+            eqx,
+            flip_case,
+            bases_missing,
+        })
+        .boxed()
+}
+
+fn aux_val_strategy() -> BoxedStrategy<AuxVal> {
+    fn ints<T: Arbitrary + Clone + std::fmt::Debug + 'static>() -> BoxedStrategy<Vec<T>> {
+        prop::collection::vec(any::<T>(), 0..5).boxed()
+    }
+    let fbits = prop_oneof![
+        4 => any::<f32>().prop_map(|f| f.to_bits()),
+        1 => prop::sample::select(vec![0u32, 0x8000_0000, 0x7f80_0000, 0xff80_0000, 0x7fc0_0000, 0x0000_0001, 0x3f80_0000]),
+    ];
+    prop_oneof![
+        (33u8..=126).prop_map(AuxVal::A),
+        any::<i8>().prop_map(AuxVal::I8),
+        any::<u8>().prop_map(AuxVal::U8),
+        any::<i16>().prop_map(AuxVal::I16),
+        any::<u16>().prop_map(AuxVal::U16),
+        prop_oneof![any::<i32>(), prop::sample::select(vec![i32::MIN, i32::MAX, -1, 0, 127, 128, -128, -129, 32767, 32768, 65535, 65536])].prop_map(AuxVal::I32),
+        prop_oneof![any::<u32>(), prop::sample::select(vec![0, u32::MAX, 255, 256, 65535, 65536, 1 << 31])].prop_map(AuxVal::U32),
+        fbits.clone().prop_map(AuxVal::F),
+        "[ -~]{0,12}".prop_map(AuxVal::Z),
+        "([0-9A-F]{2}){0,5}".prop_map(AuxVal::H),
+        ints::<i8>().prop_map(AuxVal::BI8),
+        ints::<u8>().prop_map(AuxVal::BU8),
+        ints::<i16>().prop_map(AuxVal::BI16),
+        ints::<u16>().prop_map(AuxVal::BU16),
+        ints::<i32>().prop_map(AuxVal::BI32),
+        ints::<u32>().prop_map(AuxVal::BU32),
+        prop::collection::vec(fbits, 0..4).prop_map(AuxVal::BF),
+    ]
+    .boxed()
+}
+
+fn aux_strategy() -> BoxedStrategy<Aux> {
+    let tag = prop_oneof![
+        6 => prop::sample::select(vec!["NM", "MD", "AS", "XS", "X0", "XA", "OQ", "BC", "MC", "ms", "zz", "Z9"]).prop_map(|s| s.to_string()),
+        1 => "[A-Za-z][A-Za-z0-9]",
+    ];
+    (tag, aux_val_strategy()).prop_map(|(tag, val)| Aux { tag, val }).boxed()
+}
+
+fn qual_strategy(w_missing: u32) -> BoxedStrategy<Qual> {
+    let present = prop_oneof![
+        5 => any::<u32>().prop_map(Qual::Seeded),
+        2 => (0u8..=93).prop_map(Qual::Const),
+    ];
+    if w_missing == 0 {
+        present.boxed()
+    } else {
+        prop_oneof![
+            (100 - w_missing) => present,
+            w_missing => Just(Qual::Missing),
+        ]
+        .boxed()
+    }
+}
+
+fn read_strategy(p: &Params, body: BoxedStrategy<Body>) -> BoxedStrategy<Read> {
+    (
+        body,
+        any::<bool>(),
+        prop_oneof![6 => (0u8..=60).prop_map(Some), 1 => Just(Some(254u8)), 1 => Just(Some(0u8)), 1 => Just(None)],
+        qual_strategy(p.w_missing_quals),
+        prop_oneof![3 => Just(Vec::new()), 5 => prop::collection::vec(aux_strategy(), 0..5)],
+        prop_oneof![3 => Just(None), 2 => (0u8..3).prop_map(Some)],
+        0u8..6,
+        prop_oneof![4 => Just(0u16), 1 => Just(0x2u16), 1 => Just(0x200u16), 1 => Just(0x400u16), 1 => Just(0x602u16)],
+    )
+        .prop_map(|(body, reverse, mapq, qual, tags, rg, rg_at, extra_flags)| Read { body, reverse, mapq, qual, tags, rg, rg_at, extra_flags })
+        .boxed()
+}
+
+fn mapped_body(p: &Params) -> BoxedStrategy<Body> {
+    aligned_strategy(p).prop_map(Body::Mapped).boxed()
+}
+
+fn unmapped_body(p: &Params, placed: bool) -> BoxedStrategy<Body> {
+    let bases = if p.w_unmapped_missing_bases == 0 {
+        nonempty_bases_strategy(30)
+    } else {
+        prop_oneof![
+            (100 - p.w_unmapped_missing_bases) => nonempty_bases_strategy(30),
+            p.w_unmapped_missing_bases => Just(String::new()),
+        ]
+        .boxed()
+    };
+    let max_ref_len = p.max_ref_len as u32;
+    let place = if placed { (0u8..(p.max_refs.max(1) as u8), 1u32..=max_ref_len, prop::bool::weighted(0.05)).prop_map(Some).boxed() } else { Just(None).boxed() };
+    (place, bases).prop_map(|(placed, bases)| Body::Unmapped { placed, bases }).boxed()
+}
+
+fn any_body(p: &Params) -> BoxedStrategy<Body> {
+    if !p.unmapped {
+        return mapped_body(p);
+    }
+    if p.w_placed_unmapped == 0 {
+        prop_oneof![8 => mapped_body(p), 2 => unmapped_body(p, false)].boxed()
+    } else {
+        prop_oneof![
+            80 => mapped_body(p),
+            20 => unmapped_body(p, false),
+            p.w_placed_unmapped => unmapped_body(p, true),
+        ]
+        .boxed()
+    }
+}
+
+fn name_strategy() -> BoxedStrategy<String> {
+    prop_oneof![
+        5 => (0u32..1000, 0u32..100).prop_map(|(a, b)| format!("r{a:04}:{b}")),
+        2 => "[!-?A-~]{1,12}",
+        1 => (1000u32..1200).prop_map(|a| format!("HWI-ST{a}_0001:1:1101:{a}:2#ACGT/1")),
+    ]
+    .boxed()
+}
+
+fn template_strategy(p: &Params) -> BoxedStrategy<Template> {
+    let p1 = p.clone();
+    let w_name = p.w_missing_name;
+    let name = move || -> BoxedStrategy<Option<String>> {
+        if w_name == 0 {
+            name_strategy().prop_map(Some).boxed()
+        } else {
+            prop_oneof![(100 - w_name) => name_strategy().prop_map(Some), w_name => Just(None)].boxed()
+        }
+    };
+    let single = (name(), read_strategy(p, any_body(p)), prop::bool::weighted(0.05)).prop_map(|(name, read, secondary)| Template::Single { name, read, secondary });
+    // a pair: segment 2 is placed near segment 1 most of the time
+    let extra = {
+        let sec = read_strategy(p, mapped_body(p)).prop_map(|r| Some((ExtraKind::Secondary, r)));
+        if p.w_supplementary == 0 {
+            prop_oneof![92 => Just(None), 8 => sec].boxed()
+        } else {
+            let sup = read_strategy(p, mapped_body(p)).prop_map(|r| Some((ExtraKind::Supplementary, r)));
+            prop_oneof![90 => Just(None), 6 => sec, p.w_supplementary => sup].boxed()
+        }
+    };
+    let w_chim = p.w_chimeric;
+    let pair = (name(), read_strategy(p, any_body(p)), read_strategy(p, any_body(p)), prop::bool::weighted(0.1), extra, 0u32..80, weighted_bool(w_chim), any::<bool>()).prop_map(
+        move |(name, r1, mut r2, drop_r2, extra, dist, chimeric, mate_follows_placement)| {
+            // keep the mate close to segment 1 and on its reference unless chimeric
+            if let (Body::Mapped(a1), Body::Mapped(a2)) = (&r1.body, &mut r2.body) {
+                if !chimeric {
+                    a2.ref_idx = a1.ref_idx;
+                    a2.start = a1.start.saturating_add(dist);
+                }
+            }
+            // an unplaced unmapped mate of a mapped read is conventionally placed at the mate's
+            // position when placed unmapped reads are allowed
+            if p1.w_placed_unmapped > 0 && mate_follows_placement {
+                if let (Body::Mapped(a1), Body::Unmapped { placed, .. }) = (&r1.body, &mut r2.body) {
+                    if let Some((_, _, oh)) = *placed {
+                        *placed = Some((a1.ref_idx, a1.start, oh));
+                    }
+                }
+            }
+            Template::Pair { name, r1, r2, drop_r2, extra }
+        },
+    );
+    prop_oneof![5 => single, 6 => pair].boxed()
+}
+
+pub fn enc_strategy(allow_nametok: bool, allow_fqz: bool) -> BoxedStrategy<Enc> {
+    enc_strategy_w(allow_nametok, allow_fqz, 12)
+}
+
+/// `w_aac` = weight of the adaptive arithmetic coder (the core data block is always empty in
+/// noodles' writer and its AAC encoder asserts a non-empty input, so the core encoder draws AAC
+/// rarely).
+pub fn enc_strategy_w(allow_nametok: bool, allow_fqz: bool, w_aac: u32) -> BoxedStrategy<Enc> {
+    let nx16 = prop_oneof![
+        3 => prop::sample::select(vec![0x00u8, 0x01, 0x04, 0x05, 0x40, 0x41, 0x80, 0x81, 0xC0, 0xC1, 0x08, 0x09, 0x20]),
+        2 => any::<u8>().prop_map(|f| f & !0x02),
+    ];
+    let aac = prop_oneof![
+        3 => prop::sample::select(vec![0x00u8, 0x01, 0x04, 0x40, 0x41, 0x80, 0x81, 0xC0, 0xC1, 0x08, 0x09, 0x20]),
+        2 => any::<u8>().prop_map(|f| f & !0x02),
+    ];
+    let mut alts: Vec<(u32, BoxedStrategy<Enc>)> = vec![
+        (20, Just(Enc::None).boxed()),
+        (16, (0u8..=9).prop_map(Enc::Gzip).boxed()),
+        (6, (1u8..=9).prop_map(Enc::Bzip2).boxed()),
+        (6, (0u8..=3).prop_map(Enc::Lzma).boxed()),
+        (12, (0u8..=1).prop_map(Enc::Rans4x8).boxed()),
+        (14, nx16.prop_map(Enc::RansNx16).boxed()),
+        (w_aac, aac.prop_map(Enc::Aac).boxed()),
+    ];
+    if allow_nametok {
+        alts.push((40, Just(Enc::NameTok).boxed()));
+    }
+    if allow_fqz {
+        alts.push((40, Just(Enc::Fqz).boxed()));
+    }
+    prop::strategy::Union::new_weighted(alts).boxed()
+}
+
+fn basic_enc_strategy() -> BoxedStrategy<Enc> {
+    prop_oneof![
+        4 => Just(Enc::None),
+        4 => (0u8..=9).prop_map(Enc::Gzip),
+        1 => (1u8..=9).prop_map(Enc::Bzip2),
+        1 => (0u8..=3).prop_map(Enc::Lzma),
+    ]
+    .boxed()
+}
+
+/// Where one override of a sparse map goes.
+#[derive(Clone, Debug)]
+enum Slot {
+    Core,
+    Default,
+    Series(usize),
+    TagRule,
+}
+
+/// Three families: *basic* (none/gzip/bzip2/lzma everywhere), *sparse* (basic plus one to three
+/// slots with a rANS / arithmetic / tokenizer / fqzcomp encoder) and *dense* (every slot drawn from
+/// the whole encoder set). The families exist because the 3.1 codecs of the pinned tree fail on
+/// many small inputs: the basic family keeps the container- and record-level logic under test
+/// whatever the codecs do.
+pub fn enc_map_strategy() -> BoxedStrategy<EncMap> {
+    let basic = (basic_enc_strategy(), basic_enc_strategy(), basic_enc_strategy(), prop::collection::vec((0usize..N_SERIES, basic_enc_strategy()), 0..6), prop::collection::vec(basic_enc_strategy(), 0..3))
+        .prop_map(|(core, default, sd, overrides, tag_rule)| {
+            let mut series = vec![sd; N_SERIES];
+            for (i, e) in overrides {
+                series[i] = e;
+            }
+            EncMap { core, default, series, tag_rule }
+        })
+        .boxed();
+    let slot = prop_oneof![
+        1 => Just(Slot::Core),
+        2 => Just(Slot::Default),
+        10 => (0usize..N_SERIES).prop_map(Slot::Series),
+        2 => Just(Slot::Series(SERIES_RN)),
+        2 => Just(Slot::Series(SERIES_QS)),
+        2 => Just(Slot::TagRule),
+    ];
+    let exotic = |rn: bool, qs: bool| -> BoxedStrategy<Enc> {
+        let mut alts: Vec<(u32, BoxedStrategy<Enc>)> = vec![
+            (3, (0u8..=1).prop_map(Enc::Rans4x8).boxed()),
+            (3, enc_strategy(false, false).prop_filter("3.1 codec", |e| matches!(e, Enc::RansNx16(_))).boxed()),
+            (3, enc_strategy(false, false).prop_filter("3.1 codec", |e| matches!(e, Enc::Aac(_))).boxed()),
+        ];
+        if rn {
+            alts.push((6, Just(Enc::NameTok).boxed()));
+        }
+        if qs {
+            alts.push((6, Just(Enc::Fqz).boxed()));
+        }
+        prop::strategy::Union::new_weighted(alts).boxed()
+    };
+    let sparse = (basic.clone(), prop::collection::vec((slot, exotic(false, false), exotic(true, false), exotic(false, true)), 1..4))
+        .prop_map(|(mut m, ov)| {
+            for (slot, e, e_rn, e_qs) in ov {
+                match slot {
+                    Slot::Core => m.core = e,
+                    Slot::Default => m.default = e,
+                    Slot::Series(i) if i == SERIES_RN => m.series[i] = e_rn,
+                    Slot::Series(i) if i == SERIES_QS => m.series[i] = e_qs,
+                    Slot::Series(i) => m.series[i] = e,
+                    Slot::TagRule => m.tag_rule = vec![e],
+                }
+            }
+            m
+        })
+        .boxed();
+    let overrides = prop::collection::vec((0usize..N_SERIES, enc_strategy(false, false)), 0..8);
+    let dense = (
+        enc_strategy_w(false, false, 2),
+        enc_strategy(false, false),
+        enc_strategy(false, false),
+        overrides,
+        prop_oneof![2 => Just(None), 1 => enc_strategy(true, false).prop_map(Some)],
+        prop_oneof![2 => Just(None), 1 => enc_strategy(false, true).prop_map(Some)],
+        prop_oneof![1 => Just(Vec::new()), 2 => prop::collection::vec(enc_strategy(false, false), 1..4)],
+    )
+        .prop_map(|(core, default, series_default, overrides, rn, qs, tag_rule)| {
+            let mut series = vec![series_default; N_SERIES];
+            for (i, e) in overrides {
+                series[i] = e;
+            }
+            if let Some(e) = rn {
+                series[SERIES_RN] = e;
+            }
+            if let Some(e) = qs {
+                series[SERIES_QS] = e;
+            }
+            EncMap { core, default, series, tag_rule }
+        })
+        .boxed();
+    prop_oneof![9 => basic, 7 => sparse, 4 => dense].boxed()
+}
+
+pub fn opts_strategy(p: &Params) -> BoxedStrategy<WriterOpts> {
+    let enc = if p.encoders { prop_oneof![1 => Just(None), 5 => enc_map_strategy().prop_map(Some)].boxed() } else { Just(None).boxed() };
+    (prop::bool::weighted(0.7), prop::bool::weighted(0.7), prop::sample::select(vec![1u16, 2, 3, 3, 7, 7, 0]), enc)
+        .prop_map(|(preserve_read_names, ap_delta, records_per_slice, enc)| WriterOpts { preserve_read_names, ap_delta, records_per_slice, enc })
+        .boxed()
+}
+
+pub fn doc_strategy(p: Params) -> BoxedStrategy<CramDoc> {
+    let refs = prop::collection::vec(ref_seq_strategy(p.max_ref_len), 1..=p.max_refs.max(1)).prop_map(|seqs| seqs.into_iter().enumerate().map(|(i, seq)| RefSeq { name: format!("sq{i}"), seq }).collect::<Vec<_>>());
+    let order = if p.sorted_only {
+        Just(Order::Sorted).boxed()
+    } else {
+        let w_rf = p.w_right_first;
+        prop_oneof![
+            5 => Just(Order::Sorted),
+            1 => weighted_bool(w_rf).prop_map(|rf| Order::Listed { left_first: !rf }),
+            3 => (any::<u32>(), weighted_bool(w_rf)).prop_map(|(seed, rf)| Order::Shuffled { seed, left_first: !rf }),
+        ]
+        .boxed()
+    };
+    let templates = prop_oneof![
+        1 => prop::collection::vec(template_strategy(&p), 0..3),
+        6 => prop::collection::vec(template_strategy(&p), 1..=p.max_templates.max(1)),
+    ];
+    (
+        refs,
+        prop_oneof![Just(None), Just(Some("coordinate".to_string())), Just(Some("unsorted".to_string()))],
+        any::<bool>(),
+        prop_oneof![Just(vec![]), Just(vec!["rg0".to_string()]), Just(vec!["rg0".to_string(), "grp-1".to_string(), "g2".to_string()])],
+        prop_oneof![3 => Just(vec![]), 1 => Just(vec!["a comment".to_string()])],
+        templates,
+        order,
+        opts_strategy(&p),
+    )
+        .prop_map(|(refs, sort_order_tag, m5_in_header, read_groups, comments, templates, order, opts)| CramDoc { refs, sort_order_tag, m5_in_header, read_groups, comments, templates, order, opts })
+        .boxed()
+}
